@@ -102,6 +102,26 @@ Proof.
   reflexivity.
 Qed.
 
+(* finder.find + get_setmap observed directly: the dict INCLUDING its insertion
+   order, and the platform set of every node of every member *)
+Lemma get_setmap_sorted_eq events events' files files' :
+  Permutation events events' -> Permutation files files' -> NoDup (map pf_path files) ->
+  get_setmap events (iter_codebase files) = get_setmap events' (iter_codebase files').
+Proof.
+  intros Pe Pf N. rewrite (iter_codebase_perm _ _ Pf N). unfold get_setmap. f_equal.
+  apply flat_map_ext'. intros f. apply file_contribs_ext. intros; now apply assoc_of_perm.
+Qed.
+
+Lemma f_answer_perm files files' events events' :
+  Permutation files files' -> NoDup (map pf_path files) -> Permutation events events' ->
+  f_answer files events = f_answer files' events'.
+Proof.
+  intros Pf N Pe. unfold f_answer.
+  rewrite (get_setmap_sorted_eq _ _ _ _ Pe Pf N), (iter_codebase_perm _ _ Pf N).
+  f_equal. f_equal. f_equal. unfold of_list. f_equal. apply map_ext. intros f. f_equal. f_equal. f_equal. f_equal.
+  apply map_ext. intros iv. now rewrite (assoc_of_perm _ _ (pf_path f) (fst iv) Pe).
+Qed.
+
 (* the table form: contributions in any order *)
 Lemma t_answer_perm rows rows' : Permutation rows rows' -> t_answer rows = t_answer rows'.
 Proof.
